@@ -405,13 +405,18 @@ def transferable_key(primary, uids, subkeys=(), secret=False, hname='sha256', cr
         hashed.append(subpacket(33, b'\x04' + primary.fingerprint))
         sp, _ = sig_packet(primary, 0x13, hname, hashed, [], subject_octets(0x13, primary=primary.pub_body, uid=u), created=created + n, fmt=fmt)
         out += sp + trust
-    for n, (sk, sflags) in enumerate(subkeys):
+    for n, entry in enumerate(subkeys):
+        # (key, hashed flags) or (key, hashed flags or None for "no key-flags subpacket", flags planted in the UNHASHED area)
+        sk, sflags = entry[0], entry[1]
+        planted = entry[2] if len(entry) > 2 else None
         out += pkt(7 if secret else 14, sk.secret_body() if secret else sk.pub_body, fmt=fmt) + trust
         unh = []
-        if sflags & 0x02:
+        if planted is not None:
+            unh.append(subpacket(27, bytes([planted])))
+        if isinstance(sflags, int) and sflags & 0x02:
             cross, _ = sig_packet(sk, 0x19, hname, [], [], subject_octets(0x19, primary=primary.pub_body, sub=sk.pub_body), created=created + 20 + n)
             unh.append(subpacket(32, read_packets(cross)[0][1]))
-        sp, _ = sig_packet(primary, 0x18, hname, [subpacket(27, bytes([sflags]))], unh,
+        sp, _ = sig_packet(primary, 0x18, hname, [subpacket(27, bytes([sflags]) if isinstance(sflags, int) else bytes(sflags))] if sflags is not None else [], unh,
                            subject_octets(0x18, primary=primary.pub_body, sub=sk.pub_body), created=created + 20 + n, fmt=fmt)
         out += sp + trust
     return out
